@@ -136,6 +136,26 @@ class FeeField(DataflowTransactionContext):
             return FeeValue(), FeeValue(value=max(0, compared_value.value - 1))
         return FeeValue(), FeeValue()
 
+    @staticmethod
+    def _mirrored_comparison(comparison_ins: "Instruction") -> "Instruction":
+        """Return the comparison with its operands swapped: `a < b` is `b > a`.
+
+        Args:
+            comparison_ins: Comparison operator.
+
+        Returns:
+            Comparison operator giving the same result when the operands are swapped.
+        """
+        if isinstance(comparison_ins, Less):
+            return Greater()
+        if isinstance(comparison_ins, LessE):
+            return GreaterE()
+        if isinstance(comparison_ins, Greater):
+            return Less()
+        if isinstance(comparison_ins, GreaterE):
+            return LessE()
+        return comparison_ins
+
     def _get_asserted_fee(  # pylint: disable=too-many-branches
         self, key: str, ins_stack_value: KnownStackValue
     ) -> Tuple[FeeValue, FeeValue]:
@@ -181,6 +201,9 @@ class FeeField(DataflowTransactionContext):
                 return FeeValue(), FeeValue()
 
             ins = ins_stack_value.instruction
+            if isinstance(arg1, UnknownStackValue) or not is_value_matches_key(key, arg1):
+                # the fee is the second operand: `c < fee` is `fee > c`
+                ins = self._mirrored_comparison(ins)
             return self._get_asserted_max_value(ins, compared_value)
         return FeeValue(), FeeValue()
 
